@@ -72,11 +72,13 @@ struct RunData {
   size_t len[ORC_N_VARIABLES] = {0};          // bytes of each array that belong to the run (rows, padding, slack)
 };
 // Seeded inputs for a program shape.  `nreq`<=0 picks n from the seed.
-void make_inputs(const ProgMeta &meta, uint64_t dataseed, int nreq, RunData &d);
+void make_inputs(const ProgMeta &meta, uint64_t dataseed, int nreq, RunData &d, bool emulation_only = false);
 enum RunMode { RUN_EXEC = 0, RUN_EMULATE = 1, RUN_BACKUP = 2, RUN_DIRECT = 3 };  // DIRECT: call the entry point itself, as orcc-generated wrappers do
 // Runs with an executor attached to `prog` (prog != null) or a code-only
 // executor on `code`.  Outputs are left in `d`.
 void run_with(OrcProgram *prog, OrcCode *code, const ProgMeta &meta, RunMode mode, RunData &d);
+// Emulation reference on `twin` (2-D programs: row by row, see orcrun.cc).
+void reference_emulate(OrcProgram *twin, const ProgMeta &meta, RunData &d);
 // Compare outputs (dest arrays and accumulators); returns "" when equal.
 std::string compare_outputs(const ProgMeta &meta, const RunData &a, const RunData &b);
 uint64_t hash_outputs(const ProgMeta &meta, const RunData &d);
